@@ -6,8 +6,6 @@ import os
 VERIF = os.path.dirname(os.path.dirname(os.path.abspath(__file__)))
 
 NA = {
-    "C06": "Whether a depends(watch=True) method is registered exactly once depends on the run-time contents of cls.__dict__, the MRO and the _depends['watch'] lists of every ancestor over an unbounded space of class shapes; the only code facts are single-site (the de-dup filter in the metaclass) and a rule on them would be a text match on one line, not a decision of the property. No dominance, pairing or table-agreement fact bounds the invocation count (DESIGN.md §4).",
-    "C07": "Which watchers exist after a history of attach/replace/detach is heap state built by _update_deps at run time; no dominance/pairing fact over the source bounds 'fires exactly once per change of the value reached through the current path' (DESIGN.md §4).",
     "C20": "Round-trip equality of eval(pprint(x)) is a statement about repr of run-time values (quoting, inf, 1-tuples); it has no structural clause decidable without executing the printer (DESIGN.md §4).",
 }
 
@@ -19,6 +17,14 @@ def claim(pid, text, note, technique):
     CLAIMS[pid] = (text, note, technique)
 
 
+claim("C06",
+      "Bounded decision of C06's registration structure: the metaclass code that builds the class-level table of watched methods is interpreted abstractly on 16 class shapes (B below A, optionally below A0; the method not defined / overridden with watch=True / with watch=False / undecorated; a new watched method): exactly one entry per watched method name, the subclass's own entry replacing the inherited one, none for an override that does not watch; Parameters._update_deps is interpreted at construction: one watcher per (object, class, what) group covering all of the group's dependencies, on_init methods called exactly once; Parameterized.__init__ reaches that installation and the decorator records what the metaclass reads.",
+      "Partial: 'exactly once per change' additionally rests on C05 (one call per watcher per batch) and C03 (changes-only filter), which are decided by their own checks for every watcher. Not decided: the resolution of dependency specs to parameters (_spec_to_obj, method-name recursion), the function form in param/depends.py beyond the _dinfo record, class shapes beyond the bounded ones (multiple-inheritance merges run the same loop). Assumes ancestors' tables were built by the same code.",
+      "static analysis: finite-domain abstract interpretation of the metaclass table code and of Parameters._update_deps against a specification written from the property; syntactic reachability of the installation from Parameterized.__init__")
+claim("C07",
+      "Bounded decision of C07's rebinding step and change filter: Parameters._watch_group, _resolve_dynamic_deps, _m_caller, _sync_caller and _skip_event are interpreted together for every ordered list of 1..3 dependencies out of sub.x / sub.y / sub.x:bounds / sub.subsub.z / sub.param, every watcher installed for them and every event it can receive (the sub-object replaced by one equal in all values, or differing in exactly one value, bounds or the attached grandchild; the grandchild replaced; a leaf assigned): the method runs iff a value reached through one of the dependencies sharing that watcher changed, and an intermediate replacement tells the parent to re-resolve; Parameters._update_deps(attribute) removes every recorded dynamic watcher from the object it was installed on exactly once and installs and records new ones on the attached object; Parameter.__set__ re-resolves after the store and before dispatch.",
+      "Bounded: paths of depth <= 2 below the root, lists of <= 3 dependencies, one replacement per level (longer histories follow by induction because each rebinding starts from the recorded watchers, which are shown to be exactly the installed ones). Not decided: the resolution of a path to objects (_spec_to_obj, taken as every intermediate parameter followed by the leaves), paths that stop resolving, async dependent methods, that a watcher fires once per batch (C05).",
+      "static analysis: finite-domain abstract interpretation of the watcher-construction and event-filter functions against a specification written from the property; syntactic ordering facts in Parameter.__set__")
 claim("C11",
       "Bounded decision of C11: ParameterizedMetaclass.__param_inheritance is interpreted abstractly on a new class below a parent (that re-declares the Parameter or skips it) and a grandparent, for every subset of default / bounds / doc / label declared anew x Parameter type changed or not x an ancestor with instantiate=True x the validator's verdict x a default that is a value / None / falsy: per slot the nearest declaring ancestor wins (else the type's default, callable defaults called with the Parameter), inherited containers are copied, instantiate is inherited, the merged default is validated whenever the type changed or a validated slot was declared anew with a non-None merged default, and creation fails iff it is rejected; both routes the property names (class creation, add_parameter, and a Parameter assigned at class level) reach that function.",
       "Bounded: hierarchies of depth three with a skipped level; deeper chains and multiple-inheritance merges run the same loop but are not enumerated. That allow_None is recomputed from the class's own declaration (Parameter.__init__ of each type) and the correctness of the validators themselves (C01) are not decided here. Assumes ancestors were created earlier, so their Parameter objects have every slot filled.",
